@@ -34,6 +34,30 @@ theorem manifest_idempotent (sel : Selection) (m : List Record) :
 theorem manifest_sublist (sel : Selection) (m : List Record) :
     (manifestSelect sel m).Sublist m := List.filter_sublist
 
+/-- `Manifest::select` does not panic — and is `manifestSelect` — on a manifest whose rows all name
+    one of the four molecule types, in whatever letter case (`Record::moltype()` lower-cases before
+    it matches): manifests made by `Record::from_sig`, and manifests read from CSV documents written
+    by other tools. -/
+theorem manifest_total (sel : Selection) (m : List Record) (h : ∀ r ∈ m, r.mol? ≠ none) :
+    manifestSelect? sel m = some (manifestSelect sel m) := by
+  unfold manifestSelect?
+  have : m.any (rowPanics sel) = false := by
+    rw [List.any_eq_false]
+    intro r hr
+    have hm := h r hr
+    unfold rowPanics
+    cases hs : sel.moltype with
+    | none => simp
+    | some mt =>
+      cases hp : r.mol? with
+      | none => exact absurd hp hm
+      | some v => simp
+  simp [this]
+/-- non-vacuity: "dNa" and "PROTEIN" are such rows -/
+example : ∀ r ∈ [({ (default : Record) with moltype := [100, 78, 97] } : Record),
+                 { (default : Record) with moltype := [80, 82, 79, 84, 69, 73, 78] }], r.mol? ≠ none := by
+  decide
+
 /-- `Collection::select` (and with it `LinearIndex::select` when it succeeds) is the manifest
     selection; the storage is untouched -/
 theorem collection_exact (sel : Selection) (c : Collection) :
@@ -258,6 +282,43 @@ theorem agree_rows (md5of : Sketch → Bytes) (sel : Selection) (nm fn path : By
   intro s hs
   simp only [Function.comp]
   rw [rowValid_eq_satisfies, mkRecord_described, keep_eq_satisfies sel s (hk s hs)]
+
+/-- the same for a manifest that was not made by `Record::from_sig` (e.g. read from a CSV document):
+    whenever row `r` *describes* sketch `s` — ksize in residues, the molecule type its (arbitrarily
+    capitalised) name parses to, abundance flag, num and reported scaled — `Manifest::select` keeps
+    the row iff `Signature::select` keeps the sketch … -/
+theorem agree_described (sel : Selection) (r : Record) (s : Sketch)
+    (hk : s.mol.proteinFamily = true → s.ksize % 3 = 0) (hd : r.described = s.described) :
+    rowValid sel r = keep sel s := by
+  rw [rowValid_eq_satisfies, hd, keep_eq_satisfies sel s hk]
+/-- non-vacuity: a row spelled "dNa" describes a DNA sketch -/
+example :
+    ({ (default : Record) with ksize := 21, moltype := [100, 78, 97] } : Record).described =
+      Sketch.described ⟨21, .dna, 0, 0, false, .vec, 42, [], []⟩ := by
+  decide
+
+/-- … and so the retained positions agree for a whole manifest whose rows describe, one by one, the
+    sketches of a list -/
+theorem agree_described_rows (sel : Selection) (rows : List Record) (l : List Sketch)
+    (hk : ∀ s ∈ l, s.mol.proteinFamily = true → s.ksize % 3 = 0)
+    (hd : rows.map Record.described = l.map Sketch.described) (i : Nat) :
+    retainedFrom (rowValid sel) i rows = retainedFrom (keep sel) i l := by
+  induction rows generalizing l i with
+  | nil =>
+    cases l with
+    | nil => rfl
+    | cons s l' => simp at hd
+  | cons r rows' ih =>
+    cases l with
+    | nil => simp at hd
+    | cons s l' =>
+      simp only [List.map_cons, List.cons.injEq] at hd
+      have h1 := agree_described sel r s (hk s (List.mem_cons_self ..)) hd.1
+      have h2 := ih l' (fun t ht => hk t (List.mem_cons_of_mem _ ht)) hd.2 (i + 1)
+      simp only [retainedFrom, h1, h2]
+example : [({ (default : Record) with ksize := 21, moltype := [100, 78, 97] } : Record)].map Record.described =
+    [(⟨21, .dna, 0, 0, false, .vec, 42, [], []⟩ : Sketch)].map Sketch.described := by
+  decide
 
 /-- without the multiple-of-3 hypothesis the two levels disagree: a "protein" sketch whose stored
     ksize is 20 is described as k=6 by its record, and a k=6 request keeps the record but not the
